@@ -17,6 +17,12 @@ for m in $STUBS; do
     fi
   done
 done
+# development builds use a clean worktree of /repo (HEAD), so that a seeded regression applied to /repo's
+# working tree by tools/seeded_run.sh at the same time is never compiled in by accident
+git -C /var/tmp/repo-clean checkout -q --detach $(git -C /repo rev-parse HEAD) 2>/dev/null
+git -C /var/tmp/repo-clean checkout -q -- . ; if [ -n "${MUTANT:-}" ]; then git -C /var/tmp/repo-clean apply $MUTANT && echo "(scratch worktree carries $MUTANT)"; fi
+sed -i 's#"/repo/#"/var/tmp/repo-clean/#g' $SNAP/vp/Cargo.toml $SNAP/oracles/Cargo.toml
 cd $SNAP && CARGO_NET_OFFLINE=true CARGO_TARGET_DIR=/var/tmp/vp-main-target cargo build --profile verif 2>&1 | grep -E "^error" -A14 | head -60
 if [ ${PIPESTATUS[0]} -ne 0 ]; then echo "BUILD FAILED"; exit 1; fi
+git -C /var/tmp/repo-clean checkout -q -- .
 echo "built: /var/tmp/vp-main-target/verif/vp"
